@@ -326,9 +326,19 @@ func (cm *CMap) parseBfRangeSection(section string) error {
 
 		startCode, err1 := parseHexToUint32(startHex)
 		endCode, err2 := parseHexToUint32(endHex)
-		dstUnicode, err3 := parseHexToUint32(dstHex)
+		if err1 != nil || err2 != nil {
+			continue
+		}
 
-		if err1 != nil || err2 != nil || err3 != nil {
+		// A destination of more than one UTF-16 code unit (surrogate pair or
+		// ligature) does not fit StartUnicode: map the codes one by one.
+		if len(dstHex) > 4 {
+			cm.addMultiUnitRange(startCode, endCode, dstHex)
+			continue
+		}
+
+		dstUnicode, err3 := parseHexToUint32(dstHex)
+		if err3 != nil {
 			continue
 		}
 
@@ -341,6 +351,32 @@ func (cm *CMap) parseBfRangeSection(section string) error {
 	}
 
 	return nil
+}
+
+// addMultiUnitRange maps startCode..endCode to a destination string of several
+// UTF-16BE code units; per the CMap specification the last code unit is
+// incremented for each successive code.
+func (cm *CMap) addMultiUnitRange(startCode, endCode uint32, dstHex string) {
+	dstHex = strings.Join(strings.Fields(dstHex), "")
+	if len(dstHex)%2 != 0 {
+		dstHex = "0" + dstHex
+	}
+	dst, err := hex.DecodeString(dstHex)
+	if err != nil || len(dst) < 2 || endCode < startCode || endCode-startCode > 0xFFFF {
+		return
+	}
+	for code := startCode; ; code++ {
+		if s, err := hexToUnicode(hex.EncodeToString(dst)); err == nil {
+			cm.charMappings[code] = s
+		}
+		if code == endCode {
+			break
+		}
+		last := uint16(dst[len(dst)-2])<<8 | uint16(dst[len(dst)-1])
+		last++
+		dst[len(dst)-2] = byte(last >> 8)
+		dst[len(dst)-1] = byte(last)
+	}
 }
 
 // parseBfRangeSectionWithArrays handles bfrange sections that contain array format entries
@@ -411,9 +447,17 @@ func (cm *CMap) parseBfRangeSectionWithArrays(section string) error {
 
 			startCode, err1 := parseHexToUint32(startHex)
 			endCode, err2 := parseHexToUint32(endHex)
-			dstUnicode, err3 := parseHexToUint32(dstHex)
+			if err1 != nil || err2 != nil {
+				continue
+			}
 
-			if err1 != nil || err2 != nil || err3 != nil {
+			if len(dstHex) > 4 {
+				cm.addMultiUnitRange(startCode, endCode, dstHex)
+				continue
+			}
+
+			dstUnicode, err3 := parseHexToUint32(dstHex)
+			if err3 != nil {
 				continue
 			}
 
